@@ -21,3 +21,17 @@ def _(vc):
     v = z3.Int(vc.path.fresh_name("v_member"))
     vc.assume(z3.Select(st.arr, v))  # an arbitrary member ...
     vc.ensure("every_member_listed", vc.exists(n, lambda k: vc.at(seq, k) == v))  # ... occurs in the enumeration
+
+
+@obligation("C08.Scope.hash_respects_equality", "C08", [f"{SC}:Scope.__hash__", f"{SC}:Scope.__eq__"])
+def _(vc):
+    """scopes are dictionary keys of the structural predicates (`_scope_factorizations`, `is_structured_decomposable`): equal scopes - however
+    their sets were assembled - must hash alike, or equal scopes end up under different keys (hash of a set is a function of the set; the order in
+    which a set is ITERATED is not)"""
+    a, b = vc.set("a"), vc.set("b")
+    vc.cardinality_abstraction_is_exact("only equality of the two sets matters here")
+    s1, s2 = vc.new(f"{SC}:Scope", a), vc.new(f"{SC}:Scope", b)
+    vc.assume(a.arr == b.arr)
+    vc.ensure("equal_scopes_are_equal", vc.I.truth(vc.call((s1, "__eq__"), s2)))
+    h1, h2 = vc.call((s1, "__hash__")), vc.call((s2, "__hash__"))
+    vc.ensure("equal_scopes_hash_alike", to_z3(h1) == to_z3(h2))
